@@ -1,5 +1,35 @@
 import Driver.Proto
-/-! C15 handler (not implemented yet). -/
+import ThunderModel.Cost
+import ThunderModel.OneShot
+/-! C15 handler: traversal cost of a selection DAG; one-shot request protocol. -/
+open Lean TM
+
 namespace Driver.C15
-def handle : Handler := fun _ => throw "C15: no model yet"
+
+def decLabel (s : String) : Except String OneShot.Label :=
+  match s with
+  | "cancel" => pure .cancel
+  | "sched" => pure .sched
+  | "finish" => pure .finish
+  | "wake" => pure .wake
+  | "stopped" => pure .stopped
+  | _ => throw s!"bad label {s}"
+
+def handle : Handler := fun req => do
+  let op ← str req "op"
+  match op with
+  | "cost" =>
+    let g ← listOf (fun j => nats j) (← field req "graph")
+    let root ← nat req "root"
+    let fuel ← nat req "fuel"
+    pure <| Json.mkObj [("memo", (Cost.memoCost g fuel root : Nat)), ("nodes", (g.length : Nat))]
+  | "oneshot" =>
+    let ls ← listOf (fun j => do decLabel (← j.getStr?)) (← field req "labels")
+    let rep ← bool req "repaired"
+    match OneShot.run rep OneShot.init ls with
+    | some s => pure <| Json.mkObj [("ok", true), ("returned", decide (s.handler = .returned)),
+        ("canProgress", OneShot.canProgress rep s), ("cancelled", s.cancelled)]
+    | none => pure <| Json.mkObj [("ok", false)]
+  | _ => throw s!"C15: unknown op {op}"
+
 end Driver.C15
